@@ -862,3 +862,120 @@ func ruleR5_7(w *World, r *Report) {
 		}
 	}
 }
+
+// ---------- R9.7: a literal from a list is bound at the top level of a live solver only after its status was consulted ----------
+
+// Binding overwrites. On a live solver a literal handed in from a list (forced literals of an added constraint, unit
+// clauses re-installed by Assume, assumptions) may already be false at the top level because an earlier element of the
+// same list propagated its negation; writing the binding anyway hides the contradiction, and the propagation that
+// follows starts from an inconsistent assignment (observed: optimum 0 with a model violating a constraint).
+func ruleR9_7(w *World, r *Report) {
+	r.Rule("R9.7", "in every method of a live Solver that binds the elements of a literal list at level 1, the binding of an element is dominated by a test of that element's current status that excludes `already false` (which must lead to Unsat instead)", 2)
+	unsatK, _ := w.statusConst("Unsat")
+	n := 0
+	for _, fn := range w.Fns {
+		if w.PkgName(fn) != "solver" || fn.Signature.Recv() == nil || typeShort(fn.Signature.Recv().Type()) != "*solver.Solver" {
+			continue
+		}
+		k := 0
+		seen := map[ssa.Value]bool{}
+		allInstrs(fn, func(ins ssa.Instruction) {
+			st, ok := ins.(*ssa.Store)
+			if !ok {
+				return
+			}
+			lit, ok := level1Binding(st)
+			if !ok || seen[lit] {
+				return
+			}
+			if _, _, isElem := elemOfSlice(lit); !isElem {
+				return
+			}
+			seen[lit] = true
+			k++
+			n++
+			key := fmt.Sprintf("%s consults the status before binding list element #%d", w.FuncName(fn), k)
+			// evidence carried by a branch edge (condition, polarity)
+			evidence := func(cond ssa.Value, pol bool) bool {
+				bo, isB := cond.(*ssa.BinOp)
+				if !isB || (bo.Op != token.EQL && bo.Op != token.NEQ) {
+					return false
+				}
+				c, isC := bo.X.(*ssa.Call)
+				if !isC {
+					return false
+				}
+				// `abs(model[lit.Var()]) == 1` false: not bound at the top level, hence unbound once deeper levels are retracted
+				if typeShort(c.Type()) == "solver.decLevel" && len(c.Call.Args) == 1 {
+					if ld, isL := c.Call.Args[0].(*ssa.UnOp); isL && ld.Op == token.MUL {
+						if ia, isIA := ld.X.(*ssa.IndexAddr); isIA {
+							if _, isM := isFieldLoad(ia.X, "solver.Solver", "model"); isM {
+								idx := ia.Index
+								if cv, isCv := idx.(*ssa.Convert); isCv {
+									idx = cv.X
+								}
+								if vc, isV := idx.(*ssa.Call); isV && len(vc.Call.Args) == 1 && vc.Call.Args[0] == lit {
+									if k1, isK1 := constInt(bo.Y); isK1 && k1 == 1 && (bo.Op == token.NEQ) == pol {
+										return true
+									}
+								}
+							}
+						}
+					}
+					return false
+				}
+				if typeShort(c.Type()) != "solver.Status" {
+					return false
+				}
+				same := false
+				for _, a := range c.Call.Args {
+					if a == lit {
+						same = true
+					}
+				}
+				kk, isK := constInt(bo.Y)
+				if !same || !isK {
+					return false
+				}
+				// `== Unsat` false edge, `!= Unsat` true edge, or `== X` true edge for another constant X
+				if kk == unsatK && (bo.Op == token.NEQ) == pol {
+					return true
+				}
+				return kk != unsatK && (bo.Op == token.EQL) == pol
+			}
+			// every path from the definition of the element to the binding passes an edge carrying evidence
+			defBlock := fn.Blocks[0]
+			if li, isI := lit.(ssa.Instruction); isI {
+				defBlock = li.Block()
+			}
+			visited := map[*ssa.BasicBlock]bool{}
+			var covered func(b *ssa.BasicBlock) bool
+			covered = func(b *ssa.BasicBlock) bool {
+				if b == defBlock || len(b.Preds) == 0 {
+					return false
+				}
+				if visited[b] {
+					return true
+				}
+				visited[b] = true
+				for _, p := range b.Preds {
+					if iff, isIf := p.Instrs[len(p.Instrs)-1].(*ssa.If); isIf && p.Succs[0] != p.Succs[1] {
+						if evidence(iff.Cond, p.Succs[0] == b) {
+							continue
+						}
+					}
+					if !covered(p) {
+						return false
+					}
+				}
+				return true
+			}
+			okc := covered(st.Block())
+			r.Check(okc, "R9.7", key, w.InstrPos(st), "bound only when not already false",
+				"the element is bound without its current status having been consulted: when an earlier element of the list has propagated its negation at the top level, the binding is overwritten instead of the contradiction being reported, and the solver goes on from an inconsistent assignment (a model violating a constraint can be returned)")
+		})
+	}
+	if n == 0 {
+		r.Unk("R9.7", "level-1 bindings of list elements", "-", "no method of Solver binds elements of a literal list at level 1")
+	}
+}
